@@ -15,6 +15,26 @@ import (
 	"time"
 )
 
+// resync: if every violation of this step is a C03 accounting discrepancy, adopt the cache's own
+// accounting so that the other properties' assertions can go on being evaluated.
+func (s *vfSM) resync(vs []*vfViol) bool {
+	for _, v := range vs {
+		if v.Owner != "C03" || !strings.HasPrefix(v.Sig, "C03/remaining-cost") {
+			return false
+		}
+	}
+	s.acct = s.policyKeys()
+	s.used = s.c.MaxCost() - s.c.RemainingCost()
+	s.maxCost = s.c.MaxCost()
+	return true
+}
+
+// fitsAlways: the configuration guarantees that all keys at their largest cost fit together
+// (C06's premise), so no eviction and no capacity rejection may ever happen.
+func (s *vfSM) fitsAlways() bool {
+	return s.cfg.MaxCost >= int64(s.cfg.Keys)*(vfRoomyMaxCost+itemSize)
+}
+
 func (s *vfSM) peek(key uint64) (uint64, bool) { return s.c.storedItems.Get(key, 0) }
 
 func (s *vfSM) fifoCap() int { return cap(s.c.setBuf) }
@@ -234,6 +254,15 @@ func (s *vfSM) checkDrained(vs *[]*vfViol) {
 	if rc := s.c.RemainingCost(); rc < 0 && !s.exempt {
 		s.add(vs, vfV("C03", "over-capacity", "RemainingCost()=%d < 0 with writes drained, no cost-raising overwrite and MaxCost never lowered", rc))
 	}
+	// C05: "The deleted value is released through OnExit" - by the time writes have drained
+	for _, t := range s.delRemoved {
+		if ti := s.toks[t]; ti != nil && ti.exits == 0 {
+			v := vfV("C05", "deleted-value-not-released", "value %d (key %d) was removed by Del (directly or through its tombstone), writes have drained, and OnExit never received it", t, ti.key)
+			v.Also = "C04"
+			s.add(vs, v)
+		}
+	}
+	s.delRemoved = s.delRemoved[:0]
 	for _, k := range vfSortedU64(s.deleted) {
 		if !s.deleted[k] {
 			continue
@@ -258,8 +287,9 @@ func (s *vfSM) checkMetrics(vs *[]*vfViol) {
 	} else if h != s.mHits {
 		s.add(vs, vfV("C17", "hits", "Hits=%d but %d Gets found a value", h, s.mHits))
 	}
-	if d := m.KeysAdded() - m.KeysEvicted(); d != uint64(len(s.policyKeys())) {
-		s.add(vs, vfV("C17", "keys-added-minus-evicted", "KeysAdded %d - KeysEvicted %d != %d resident keys", m.KeysAdded(), m.KeysEvicted(), len(s.policyKeys())))
+	// "resident keys" are the keys the cache holds, i.e. the map (with writes drained the accounting has the same keys, C13)
+	if d := m.KeysAdded() - m.KeysEvicted(); d != uint64(len(s.mapKeys())) {
+		s.add(vs, vfV("C17", "keys-added-minus-evicted", "KeysAdded %d - KeysEvicted %d != %d resident keys (accounting charges %d keys)", m.KeysAdded(), m.KeysEvicted(), len(s.mapKeys()), len(s.policyKeys())))
 	}
 	if d := m.CostAdded() - m.CostEvicted(); d != uint64(s.c.MaxCost()-s.c.RemainingCost()) {
 		s.add(vs, vfV("C17", "cost-added-minus-evicted", "CostAdded %d - CostEvicted %d = %d != MaxCost-RemainingCost = %d", m.CostAdded(), m.CostEvicted(), d, s.c.MaxCost()-s.c.RemainingCost()))
@@ -365,6 +395,7 @@ func (s *vfSM) modelDel(op *vfOp) {
 	if ent, in := s.resident[op.Key]; in {
 		s.gone(ent.tok)
 		delete(s.resident, op.Key)
+		s.delRemoved = append(s.delRemoved, ent.tok)
 	}
 	for _, p := range s.fifo {
 		if p.kind == pNew && p.key == op.Key {
@@ -440,6 +471,7 @@ func (s *vfSM) applyPend(p vfPend, evs []vfCB, est map[uint64]int64, vs *[]*vfVi
 		if ent, in := s.resident[p.key]; in {
 			s.gone(ent.tok)
 			delete(s.resident, p.key)
+			s.delRemoved = append(s.delRemoved, ent.tok)
 		}
 		s.st.costChangeBefore = true
 	case pNew:
@@ -476,6 +508,10 @@ func (s *vfSM) applyPend(p vfPend, evs []vfCB, est map[uint64]int64, vs *[]*vfVi
 			}
 		}
 		_, dup := s.acct[p.key]
+		if s.fitsAlways() && c <= s.maxCost && !dup && (len(evicts) > 0 || rejected) {
+			s.add(vs, vfV("C06", "eviction-or-rejection-although-everything-fits", "MaxCost %d holds all %d keys at their largest cost, yet applying the insert of value %d (cost %d) evicted %d entries (rejected: %v); RemainingCost()=%d",
+				s.maxCost, s.cfg.Keys, p.tok, c, len(evicts), rejected, s.c.RemainingCost()))
+		}
 		switch {
 		case c > s.maxCost:
 		case dup:
